@@ -74,7 +74,13 @@ func UniverseProperty(prop string, impl UniImpl) Property {
 		if strings.Join(chk.FactLines(prog), "\n") != strings.Join(facts, "\n") {
 			fails = append(fails, Failure{"facts-stale", "the facts in the lines differ from go/types' view now (harness)"})
 		}
-		snap, err := impl.Load(prog, requested)
+		var snap *USnap
+		if !impl.V2 && len(requested) < len(prog.Pkgs) && impl.LoadHistory != nil {
+			// v1 with dependency-only packages: the GOPATH-mode loader (AddFileForTest marks every package requested)
+			snap, _, _, err = impl.LoadHistory(prog, requested, nil)
+		} else {
+			snap, err = impl.Load(prog, requested)
+		}
 		li, di := len(lines)-2, len(lines)-1
 		if err != nil {
 			outs[li] = "fail"
@@ -123,6 +129,21 @@ func UniverseProperty(prop string, impl UniImpl) Property {
 					requested = append(requested, p.Path)
 				}
 				feats := []string{fmt.Sprintf("pkgs:%d", len(prog.Pkgs))}
+				if len(prog.Pkgs) > 1 && r.Chance(1, 3) {
+					// only some packages are requested; the others are dependencies (or not loaded at all)
+					requested = nil
+					for _, p := range prog.Pkgs {
+						if r.Bool() {
+							requested = append(requested, p.Path)
+						}
+					}
+					if len(requested) == 0 {
+						requested = []string{prog.Pkgs[len(prog.Pkgs)-1].Path}
+					}
+					if len(requested) < len(prog.Pkgs) {
+						feats = append(feats, "has-unrequested-package")
+					}
+				}
 				src := ""
 				for _, p := range prog.Pkgs {
 					src += p.Source
